@@ -125,8 +125,8 @@ inline void genStream(Rng& r, History& h, int ep, uint16_t dev, uint8_t stream, 
             size_t n = r.chance(1, 8) ? 0 : (r.chance(1, 10) ? r.range(0, maxSeg) : r.range(0, std::min<size_t>(maxSeg, 48)));
             if (eth && i == 0 && n < wire::kEthHeader)
                 n = wire::kEthHeader + r.below(8);  // keep the Ethernet header inside the first segment for readability only
-            if (total + n > 65000)
-                n = 65000 - total;  // reassembled totals above 65535 are outside the stated domain
+            if (total + n > 65535)
+                n = 65535 - total;  // reassembled totals above 65535 are outside the stated domain; 65535 itself is legal
             if (n == 0)
                 ++h.zeroSegments;
             sizes.push_back(n);
@@ -334,6 +334,85 @@ inline void allMerges(Ctx& c, long j)
     c.count("wrap_crossings", h.wraps * 20);
 }
 
+// deterministic: one endpoint's message with a reassembled total at the top of the legal range (65519..65535), in 2..47
+// segments, interleaved with small traffic of another endpoint
+inline void bigTotals(Ctx& c, long j)
+{
+    static const size_t totals[] = {65519, 65520, 65521, 65530, 65534, 65535, 65000, 32768};
+    size_t total = totals[j % 8];
+    int shape = static_cast<int>(j / 8);  // 0: two segments, 1: 45 x ~1456, 2: unequal, trailing bytes
+    Rng r = c.fixedRng(j, 10);
+    History h;
+    Stream st;
+    st.dev = 0x0100;
+    st.stream = 1;
+    SentMsg s;
+    s.ver = 2;
+    s.mt = wire::MT_DATA;
+    s.first.ts = r.next();
+    s.first.idWord = static_cast<uint32_t>(r.next());
+    s.first.flags = wire::CF_INSYNC;
+    s.first.ptype = shape == 2 ? wire::PT_ETHERNET : 0x42;
+    s.segmented = true;
+    s.data = uniqueContent(static_cast<uint32_t>(7000 + j), total, shape == 2);
+    std::vector<size_t> sizes;
+    if (shape == 0)
+        sizes = {total - 30000, 30000};
+    else if (shape == 1)
+    {
+        size_t left = total;
+        while (left > 1456)
+        {
+            sizes.push_back(1456);
+            left -= 1456;
+        }
+        sizes.push_back(left);
+    }
+    else
+    {
+        size_t left = total;
+        while (left > 0)
+        {
+            size_t n = std::min<size_t>(left, r.chance(1, 3) ? r.range(0, 40) : r.range(5000, 20000));
+            sizes.push_back(n);
+            left -= n;
+        }
+        if (sizes.size() < 2)
+            sizes.push_back(0);
+    }
+    uint16_t seq = static_cast<uint16_t>(65536 - sizes.size() / 2);  // the run crosses the counter wrap
+    size_t off = 0;
+    for (size_t i = 0; i < sizes.size(); ++i)
+    {
+        GMsg m = s.first;
+        m.flags |= (i == 0 ? wire::SEG_FIRST : (i + 1 == sizes.size() ? wire::SEG_LAST : wire::SEG_MID));
+        m.payload.assign(s.data.begin() + static_cast<long>(off), s.data.begin() + static_cast<long>(off + sizes[i]));
+        off += sizes[i];
+        SFrame f;
+        f.endpoint = 0;
+        Bytes tr;
+        if (shape == 2 && sizes[i] < 60000 && i % 2)
+            tr = Bytes(5, 0xE9);
+        f.raw = buildFrame(2, st.dev, wire::MT_DATA, st.stream, seq, {m}, tr);
+        if (seq == 65535)
+            ++h.wraps;
+        ++seq;
+        if (i + 1 == sizes.size())
+            f.completes.push_back(0);
+        st.frames.push_back(std::move(f));
+    }
+    h.msgs.push_back(std::move(s));
+    h.streams.push_back(std::move(st));
+    genStream(r, h, 1, 0x0100, 0, 3, 65533, 30);
+    std::vector<int> order = randomMerge(r, h);
+    uint64_t il;
+    bool mo;
+    runInterleaving(c, h, order, il, mo);
+    c.sig(mix64(il, static_cast<uint64_t>(j) + 0xb16));
+    c.count("wrap_crossings", h.wraps);
+    c.count("reassembled_totals_at_top_of_range");
+}
+
 inline void randomCase(Ctx& c, long idx)
 {
     Rng r = c.caseRng(idx);
@@ -388,12 +467,14 @@ inline void randomCase(Ctx& c, long idx)
 
 inline long count(Ctx& c)
 {
-    return 36 + (c.thorough() ? 600000 : 12000);
+    return 36 + 24 + (c.thorough() ? 600000 : 12000);
 }
 inline void run(Ctx& c, long idx)
 {
     if (idx < 36)
         return allMerges(c, idx);
+    if (idx < 60)
+        return bigTotals(c, idx - 36);
     randomCase(c, idx);
 }
 
